@@ -35,7 +35,8 @@ def c09(tier):
     for cname, rel in configs:
         arts = D.carrier(host_release=rel)
         items = [D.Item(j, S.emit_field_decl(d)) for j, d in enumerate(decls)]
-        errs, unatt = D.compile_items(arts, items, f"c09-{cname}-p1", emit="metadata", nshards=64)
+        PRE = D.PRELUDE + S.c09_prelude()
+        errs, unatt = D.compile_items(arts, items, f"c09-{cname}-p1", emit="metadata", nshards=64, prelude=PRE)
         if unatt:
             raise B.MachineryError(f"C09 pass 1: diagnostics that could not be attributed to a declaration: {unatt[:3]}")
         chk.states += len(decls)
@@ -56,10 +57,10 @@ def c09(tier):
             elif v and not accepted:
                 chk.add_violation(f"valid but rejected [{cname}]: {text}", "valid_rejected",
                                   f"valid declaration rejected ({cname} macro build): {text} :: {errs[j][0]}",
-                                  decl_replay(text, "accept"))
+                                  decl_replay(text, "accept", prelude=PRE))
             elif (not v) and accepted:
                 chk.add_violation(f"invalid but accepted [{cname}]: {text}", "invalid_accepted",
-                                  f"invalid declaration accepted ({cname} macro build): {text}", decl_replay(text, "reject"))
+                                  f"invalid declaration accepted ({cname} macro build): {text}", decl_replay(text, "reject", prelude=PRE))
             elif v and accepted:
                 accepted_valid.append((j, d))
         nvalid = len(accepted_valid)
@@ -69,7 +70,7 @@ def c09(tier):
         chk.extra["valid_declarations_in_undocumented_argument_order_rejected"] = optional_rejected
         # pass 2: the accepted valid declarations alone, with a use of every accessor, through codegen
         items2 = [D.Item(j, S.emit_field_decl(d), probes=[("use", S.use_probe(d))]) for j, d in accepted_valid]
-        errs2, unatt2 = D.compile_items(arts, items2, f"c09-{cname}-p2", emit="link", nshards=32)
+        errs2, unatt2 = D.compile_items(arts, items2, f"c09-{cname}-p2", emit="link", nshards=32, prelude=PRE)
         if unatt2:
             raise B.MachineryError(f"C09 pass 2: unattributed diagnostics: {unatt2[:3]}")
         chk.transitions += len(items2)
@@ -80,7 +81,7 @@ def c09(tier):
                 text = S.emit_field_decl(d)
                 chk.add_violation(f"valid but unusable [{cname}]: {text}", "valid_unusable",
                                   f"valid declaration accepted, but its accessors do not build: {text} :: {e[0]}",
-                                  decl_replay(text, "accept", [("use", S.use_probe(d))], {"use": "accept"}, emit="link"))
+                                  decl_replay(text, "accept", [("use", S.use_probe(d))], {"use": "accept"}, emit="link", prelude=PRE))
         if cname == "dev":
             for j, d in (accepted_valid[:2] + accepted_valid[len(accepted_valid) // 2: len(accepted_valid) // 2 + 1]):
                 chk.sample({"declaration": S.emit_field_decl(d), "model": "valid", "rustc": "accepted"})
@@ -444,6 +445,30 @@ def c18(tier):
             chk.add_violation(f"[{rname}] prelude: {u[:200]}", "regime_" + rname, f"generated code for the documented enum/nested types does not compile under {attrs.strip()}: {u}",
                               decl_replay(types_txt, "accept", prelude=attrs + base_prelude, flags=["--cap-lints", "forbid"]))
         chk.per_family[f"regime:{rname}"] = {"fields": sum(len(s.fields) for s in structs), "transitions": len(items), "states": len(items), "violations": len(errs)}
+    # modules that never import arbitrary_int's names: the types (enums, nested bitfields) live at the crate root, which does import them; each
+    # declaring module imports only the macros, those types and - for an arbitrary-int base - the one name the user wrote in the attribute.
+    # Every arbitrary-int field type is written `arbitrary_int::uN`, so whatever else the generated code needs it must name by path itself
+    import copy
+    structs_q = copy.deepcopy(structs)
+    for sq in structs_q:
+        for f in sq.fields:
+            if f.kind == 'u':
+                f.qualified = True
+    names = sorted(enums) + [f"A{n_}" for n_ in sorted(enums)] + [R.inner_name(n_) for n_, _ in sorted(inners)] + [f"A{R.inner_name(n_)}" for n_, _ in sorted(inners)]
+    mod_use = "use super::{bitenum, bitfield, " + ", ".join(names) + "};"
+    items_q = [D.Item(j, ("" if sq.n in NATIVE else f"use arbitrary_int::u{sq.n}; ") + R.struct_decl(sq, doc=True)) for j, sq in enumerate(structs_q)]
+    prelude_q = "#![no_std]\n" + base_prelude + types_txt
+    errs, unatt = D.compile_items(arts, items_q, "c18-no_import", emit="metadata", nshards=16, prelude=prelude_q, mod_doc=True, cap_lints=False, mod_use=mod_use)
+    chk.transitions += len(items_q)
+    chk.validated += len(items_q)
+    for j, sq in enumerate(structs_q):
+        if j in errs:
+            text = f"pub mod user {{ {mod_use}\n" + items_q[j].text + "\n}"
+            chk.add_violation(f"[no_import] {text}", "regime_no_import", f"does not compile in a module that does not import arbitrary_int::*: {items_q[j].text} :: {errs[j][0]}",
+                              decl_replay(text, "accept", prelude=prelude_q, flags=["--cap-lints", "forbid"]))
+    if unatt:
+        raise B.MachineryError(f"C18 no_import regime: unattributed diagnostics: {unatt[:3]}")
+    chk.per_family["regime:no_import"] = {"fields": sum(len(sq.fields) for sq in structs_q), "transitions": len(items_q), "states": len(items_q), "violations": len(errs)}
     # expansion scan
     exp_dir = os.path.join(B.WORK, "declmc", "c18-expanded")
     os.makedirs(exp_dir, exist_ok=True)
@@ -503,14 +528,14 @@ def c18(tier):
         if tot_paths < 1000:
             core.vacuous("expansion scan saw almost no paths")
     chk.states += len(structs) + len(enums) + len(inners)
-    chk.programs += len(structs) * len(REGIMES)
+    chk.programs += len(structs) * (len(REGIMES) + 1)
     chk.distinct_outcomes = len(set(s.family for s in structs))
     for j in (0, len(structs) // 2, len(structs) - 1):
         chk.sample({"declaration": R.struct_decl(structs[j], doc=True)[:600], "regimes": list(REGIMES), "verdict": "compiles in all"})
     chk.extra.update({"structs": len(structs), "enums": len(enums), "nested_types": len(inners)})
     chk.bounds.append("documented cross-section: every " + ("k-th" if tier == 'quick' else "") + " struct of the contig/array/non-contiguous/signed/custom/builder/debug/mixed/default-form sets (fields truncated to 10/24), "
                       "all enum types they use plus stand-alone bitenums in all three exhaustive modes; each compiled under #![no_std], #![deny(missing_docs)], #![forbid(unsafe_code)], all three, "
-                      "and inside a module that has its own item named `core`; "
+                      "inside a module that has its own item named `core`, and in a module that never imports arbitrary_int's names (field types written by path, only the base type's name imported); "
                       "-Zunpretty=expanded output scanned with syn for unsafe (outside #[automatically_derived]), std/alloc paths, absolute paths outside core/arbitrary_int, unexpanded macros")
     return chk.finish()
 
